@@ -231,3 +231,5 @@ def run(ctx):
     ctx.guarded("C08.ctrlrestore.cbor", lambda c: cv.ctrlrestore_rule(c, "C08c", "cbor"))
     ctx.guarded("C08.argctx.json", lambda c: cv.argctx_rule(c, "C08j", "json"))
     ctx.guarded("C08.argctx.cbor", lambda c: cv.argctx_rule(c, "C08c", "cbor"))
+    ctx.guarded("C08.instguard.json", lambda c: cv.instguard_rule(c, "C08j", "json"))
+    ctx.guarded("C08.instguard.cbor", lambda c: cv.instguard_rule(c, "C08c", "cbor"))
